@@ -482,6 +482,7 @@ class Interp:
         self.depth = 0
         self.exc_stack = []
         self.modstate = {}
+        self.global_ids = {}      # id(container) -> name, for containers that live in module / class attributes
 
     # ---- helpers --------------------------------------------------------------------------
     def exc(self, clsname, *args):
@@ -1466,7 +1467,14 @@ class Interp:
         else:
             raise Unsupported('assignment target %s' % type(target).__name__)
 
+    def note_global_write(self, c):
+        nm = self.global_ids.get(id(c))
+        if nm is not None:
+            self.ctx.effect('write-global', nm)
+
     def setitem(self, c, idx, v):
+        if isinstance(c, (dict, list)):
+            self.note_global_write(c)
         if isinstance(c, dict):
             self.dict_set(c, idx, v)
             return
